@@ -500,9 +500,6 @@ func c05Random(c *core.Ctx, idx int, level string) *vexec.CaseSpec {
 	if r.Intn(100) < 12 {
 		spec.Stop = &vexec.StopSpec{Kind: "timeout", At: "decision", Nth: r.Intn(8)}
 		spec.TimeoutMs = 40
-		for _, s := range spec.Steps {
-			s.Repeat = false
-		}
 	}
 	spec.PauseUs = 200
 	return spec
